@@ -28,19 +28,25 @@ Example C07_gen_sp_ones_example :
 Proof. split; reflexivity. Qed.
 
 (* ---- permute ---- *)
-Theorem C07_gen_sp_permute_bridge : forall (self : sptz) (order : vec), sptensor_permute self order = H_sp_permute self order.
+Theorem C07_gen_sp_permute_bridge : forall (self : sptz) (order : vec) (isbool : bool),
+  sptensor_permute self order isbool = if isbool then Err else H_sp_permute self order.
 Proof. exact sp_permute_bridge. Qed.
 Print Assumptions C07_gen_sp_permute_bridge.
 
+(* /repo 9c8fdd5 (N-C07-5): an order of dtype bool is rejected whatever it holds *)
+Theorem C07_gen_sp_permute_bool_rejected : forall (self : sptz) (order : vec), sptensor_permute self order true = Err.
+Proof. exact gen_sp_permute_bool_rejected. Qed.
+Print Assumptions C07_gen_sp_permute_bool_rejected.
+
 Theorem C07_gen_sp_permute_rejects : forall (self : sptz) (order : vec),
-  np_sort order <> np_arange 0 (zlen (spt_shape self)) -> sptensor_permute self order = Err.
+  np_sort order <> np_arange 0 (zlen (spt_shape self)) -> sptensor_permute self order false = Err.
 Proof. exact gen_sp_permute_rejects. Qed.
 Print Assumptions C07_gen_sp_permute_rejects.
 
 Theorem C07_gen_sp_permute_model : forall (self t : sptz) (order : vec),
   (forall row, In row (spt_subs self) -> forall s, In s row -> 0 <= s) -> (forall d, In d (spt_shape self) -> 0 <= d) ->
   np_size2 (spt_subs self) <> 0 ->
-  sptensor_permute self order = Ok t ->
+  sptensor_permute self order false = Ok t ->
   is_perm (nats order) (length (spt_shape self)) /\ permute_sp (to_Sp self) (nats order) = Some (to_Sp t).
 Proof. exact gen_sp_permute_model. Qed.
 Print Assumptions C07_gen_sp_permute_model.
@@ -48,20 +54,21 @@ Print Assumptions C07_gen_sp_permute_model.
 Theorem C07_gen_sp_permute_den : forall (self t : sptz) (order : vec),
   (forall row, In row (spt_subs self) -> forall s, In s row -> 0 <= s) -> (forall d, In d (spt_shape self) -> 0 <= d) ->
   np_size2 (spt_subs self) <> 0 -> (forall row, In row (spt_subs self) -> length row = length (spt_shape self)) ->
-  sptensor_permute self order = Ok t ->
+  sptensor_permute self order false = Ok t ->
   forall i, length i = length (spt_shape self) ->
             den_sp 0 (to_Sp t) i = den_sp 0 (to_Sp self) (pick 0%nat (invperm (nats order)) i).
 Proof. exact gen_sp_permute_den. Qed.
 Print Assumptions C07_gen_sp_permute_den.
 
 Theorem C07_gen_sp_permute_empty : forall (self t : sptz) (order : vec), np_size2 (spt_subs self) = 0 ->
-  sptensor_permute self order = Ok t -> t = mkspt (spt_subs self) (spt_vals self) (np_take 0 (spt_shape self) order).
+  sptensor_permute self order false = Ok t -> t = mkspt (spt_subs self) (spt_vals self) (np_take 0 (spt_shape self) order).
 Proof. exact gen_sp_permute_empty. Qed.
 Print Assumptions C07_gen_sp_permute_empty.
 
 Example C07_gen_sp_permute_example :
-  sptensor_permute (mkspt [[0; 1; 3]; [2; 0; 1]] [5; -7] [3; 2; 4]) [2; 0; 1] = Ok (mkspt [[3; 0; 1]; [1; 2; 0]] [5; -7] [4; 3; 2]) /\
-  sptensor_permute (mkspt [[0; 1; 3]; [2; 0; 1]] [5; -7] [3; 2; 4]) [2; 0; 0] = Err /\
-  sptensor_permute (mkspt [[0; 1; 3]; [2; 0; 1]] [5; -7] [3; 2; 4]) [1; 0] = Err /\
-  sptensor_permute (mkspt [[]] [] [3; 2; 4]) [1; 2; 0] = Ok (mkspt [[]] [] [2; 4; 3]).
+  sptensor_permute (mkspt [[0; 1; 3]; [2; 0; 1]] [5; -7] [3; 2; 4]) [2; 0; 1] false = Ok (mkspt [[3; 0; 1]; [1; 2; 0]] [5; -7] [4; 3; 2]) /\
+  sptensor_permute (mkspt [[0; 1; 3]; [2; 0; 1]] [5; -7] [3; 2; 4]) [2; 0; 0] false = Err /\
+  sptensor_permute (mkspt [[0; 1; 3]; [2; 0; 1]] [5; -7] [3; 2; 4]) [1; 0] false = Err /\
+  sptensor_permute (mkspt [[]] [] [3; 2; 4]) [1; 2; 0] false = Ok (mkspt [[]] [] [2; 4; 3]) /\
+  sptensor_permute (mkspt [[0; 1]; [2; 0]] [5; -7] [3; 2]) [1; 0] true = Err.
 Proof. repeat split; reflexivity. Qed.
